@@ -99,9 +99,11 @@ impl CoseMac {
     /// # Panics
     ///
     /// This function will panic if the `payload` has not been set.
-    pub fn verify_tag<F, E>(&self, external_aad: &[u8], verify: F) -> Result<(), E>
+    pub fn verify_tag<F, E>(&self, external_aad: &[u8], verify: F) ->« (r:» Result<(), E>«)»
     where
-        F: FnOnce(&[u8], &[u8]) -> Result<(), E>,
+        F: FnOnce(&[u8], &[u8]) -> Result<(), E>,«
+        requires self.payload is Some, prot_encodable(self.protected), forall |a: &[u8], b: &[u8]| call_requires(verify, (a, b)),
+        ensures exists |t: &[u8], d: &[u8]| t@ == self.tag@ && d@ == self.tbm_spec(external_aad@) && call_ensures(verify, (t, d), r),»
     {
         let tbm = self.tbm(external_aad);
         verify(&self.tag, &tbm)
@@ -113,7 +115,10 @@ impl CoseMac {
     /// # Panics
     ///
     /// This function will panic if the `payload` has not been set.
-    fn tbm(&self, external_aad: &[u8]) -> Vec<u8> {
+    «pub open spec fn tbm_spec(self, aad: Seq<u8>) -> Seq<u8> { mac_tbm(MacContext::CoseMac, self.protected, aad, opt_bytes(self.payload)) }»
+    fn tbm(&self, external_aad: &[u8]) ->« (r:» Vec<u8>«)
+        requires self.payload is Some, prot_encodable(self.protected),
+        ensures r@ == self.tbm_spec(external_aad@),» {
         mac_structure_data(
             MacContext::CoseMac,
             self.protected.clone(),
@@ -188,9 +193,12 @@ impl CoseMacBuilder {
     ///
     /// This function will panic if the `payload` has not been set.
     #[must_use]
-    pub fn create_tag<F>(self, external_aad: &[u8], create: F) -> Self
+    pub fn create_tag<F>(self, external_aad: &[u8], create: F) ->« (r:» Self«)»
     where
-        F: FnOnce(&[u8]) -> Vec<u8>,
+        F: FnOnce(&[u8]) -> Vec<u8>,«
+        requires self.inner().payload is Some, prot_encodable(self.inner().protected), forall |a: &[u8]| call_requires(create, (a,)),
+        ensures exists |d: &[u8], out: Vec<u8>| d@ == self.inner().tbm_spec(external_aad@) && call_ensures(create, (d,), out)
+            && r.inner() == (CoseMac { tag: out, ..self.inner() }),»
     {
         let tbm = self.0.tbm(external_aad);
         self.tag(create(&tbm))
@@ -202,10 +210,17 @@ impl CoseMacBuilder {
     /// # Panics
     ///
     /// This function will panic if the `payload` has not been set.
-    pub fn try_create_tag<F, E>(self, external_aad: &[u8], create: F) -> Result<Self, E>
+    pub fn try_create_tag<F, E>(self, external_aad: &[u8], create: F) ->« (r:» Result<Self, E>«)»
     where
-        F: FnOnce(&[u8]) -> Result<Vec<u8>, E>,
-    {
+        F: FnOnce(&[u8]) -> Result<Vec<u8>, E>,«
+        requires self.inner().payload is Some, prot_encodable(self.inner().protected), forall |a: &[u8]| call_requires(create, (a,)),
+        ensures exists |d: &[u8], out: Result<Vec<u8>, E>| d@ == self.inner().tbm_spec(external_aad@) && call_ensures(create, (d,), out)
+            && match out {
+                Ok(o) => r matches Ok(b) && b.inner() == (CoseMac { tag: o, ..self.inner() }),
+                Err(e) => r matches Err(e2) && e2 == e,
+            },»
+    {«
+        broadcast use crate::vprelude::axiom_question_mark_uses_from;»
         let tbm = self.0.tbm(external_aad);
         Ok(self.tag(create(&tbm)?))
     }
@@ -276,9 +291,11 @@ impl CoseMac0 {
     /// # Panics
     ///
     /// This function will panic if the `payload` has not been set.
-    pub fn verify_tag<F, E>(&self, external_aad: &[u8], verify: F) -> Result<(), E>
+    pub fn verify_tag<F, E>(&self, external_aad: &[u8], verify: F) ->« (r:» Result<(), E>«)»
     where
-        F: FnOnce(&[u8], &[u8]) -> Result<(), E>,
+        F: FnOnce(&[u8], &[u8]) -> Result<(), E>,«
+        requires self.payload is Some, prot_encodable(self.protected), forall |a: &[u8], b: &[u8]| call_requires(verify, (a, b)),
+        ensures exists |t: &[u8], d: &[u8]| t@ == self.tag@ && d@ == self.tbm_spec(external_aad@) && call_ensures(verify, (t, d), r),»
     {
         let tbm = self.tbm(external_aad);
         verify(&self.tag, &tbm)
@@ -290,7 +307,10 @@ impl CoseMac0 {
     /// # Panics
     ///
     /// This function will panic if the `payload` has not been set.
-    fn tbm(&self, external_aad: &[u8]) -> Vec<u8> {
+    «pub open spec fn tbm_spec(self, aad: Seq<u8>) -> Seq<u8> { mac_tbm(MacContext::CoseMac0, self.protected, aad, opt_bytes(self.payload)) }»
+    fn tbm(&self, external_aad: &[u8]) ->« (r:» Vec<u8>«)
+        requires self.payload is Some, prot_encodable(self.protected),
+        ensures r@ == self.tbm_spec(external_aad@),» {
         mac_structure_data(
             MacContext::CoseMac0,
             self.protected.clone(),
@@ -358,9 +378,12 @@ impl CoseMac0Builder {
     ///
     /// This function will panic if the `payload` has not been set.
     #[must_use]
-    pub fn create_tag<F>(self, external_aad: &[u8], create: F) -> Self
+    pub fn create_tag<F>(self, external_aad: &[u8], create: F) ->« (r:» Self«)»
     where
-        F: FnOnce(&[u8]) -> Vec<u8>,
+        F: FnOnce(&[u8]) -> Vec<u8>,«
+        requires self.inner().payload is Some, prot_encodable(self.inner().protected), forall |a: &[u8]| call_requires(create, (a,)),
+        ensures exists |d: &[u8], out: Vec<u8>| d@ == self.inner().tbm_spec(external_aad@) && call_ensures(create, (d,), out)
+            && r.inner() == (CoseMac0 { tag: out, ..self.inner() }),»
     {
         let tbm = self.0.tbm(external_aad);
         self.tag(create(&tbm))
@@ -372,10 +395,17 @@ impl CoseMac0Builder {
     /// # Panics
     ///
     /// This function will panic if the `payload` has not been set.
-    pub fn try_create_tag<F, E>(self, external_aad: &[u8], create: F) -> Result<Self, E>
+    pub fn try_create_tag<F, E>(self, external_aad: &[u8], create: F) ->« (r:» Result<Self, E>«)»
     where
-        F: FnOnce(&[u8]) -> Result<Vec<u8>, E>,
-    {
+        F: FnOnce(&[u8]) -> Result<Vec<u8>, E>,«
+        requires self.inner().payload is Some, prot_encodable(self.inner().protected), forall |a: &[u8]| call_requires(create, (a,)),
+        ensures exists |d: &[u8], out: Result<Vec<u8>, E>| d@ == self.inner().tbm_spec(external_aad@) && call_ensures(create, (d,), out)
+            && match out {
+                Ok(o) => r matches Ok(b) && b.inner() == (CoseMac0 { tag: o, ..self.inner() }),
+                Err(e) => r matches Err(e2) && e2 == e,
+            },»
+    {«
+        broadcast use crate::vprelude::axiom_question_mark_uses_from;»
         let tbm = self.0.tbm(external_aad);
         Ok(self.tag(create(&tbm)?))
     }
@@ -386,11 +416,23 @@ impl CoseMac0Builder {
 pub enum MacContext {
     CoseMac,
     CoseMac0,
+}«
+use crate::vprelude::*;
+use crate::header::{prot_slot, prot_encodable};
+use crate::sign::opt_bytes;
+pub open spec fn mac_ctx_text(c: MacContext) -> Seq<char> { match c { MacContext::CoseMac => "MAC"@, MacContext::CoseMac0 => "MAC0"@ } }
+/// RFC 8152 section 6.3 MAC_structure
+pub open spec fn mac_structure(context: MacContext, protected: Seq<u8>, aad: Seq<u8>, payload: Seq<u8>) -> CV {
+    CV::Array(seq![CV::Text(mac_ctx_text(context)), CV::Bytes(protected), CV::Bytes(aad), CV::Bytes(payload)])
 }
+pub open spec fn mac_tbm(context: MacContext, protected: ProtectedHeader, aad: Seq<u8>, payload: Seq<u8>) -> Seq<u8> {
+    crate::vprelude::enc(mac_structure(context, prot_slot(protected), aad, payload))
+}»
 
 impl MacContext {
     /// Return the context string as per RFC 8152 section 6.3.
-    fn text(&self) -> &'static str {
+    fn text(&self) ->« (r:» &'static str«)
+        ensures r@ == mac_ctx_text(*self)» {
         match self {
             MacContext::CoseMac => "MAC",
             MacContext::CoseMac0 => "MAC0",
@@ -413,13 +455,22 @@ pub fn mac_structure_data(
     protected: ProtectedHeader,
     external_aad: &[u8],
     payload: &[u8],
-) -> Vec<u8> {
+) ->« (r:» Vec<u8>«)
+    requires prot_encodable(protected),
+    ensures r@ == mac_tbm(context, protected, external_aad@, payload@),» {
     let arr = vec![
         Value::Text(context.text().to_owned()),
         protected.cbor_bstr().expect("failed to serialize header"), // safe: always serializable
         Value::Bytes(external_aad.to_vec()),
         Value::Bytes(payload.to_vec()),
-    ];
+    ];«
+    proof {
+        reveal_with_fuel(vv, 3);
+        let want = mac_structure(context, prot_slot(protected), external_aad@, payload@);
+        assert(arr@[2] matches Value::Bytes(b) && b@ =~= external_aad@);
+        assert(arr@[3] matches Value::Bytes(b) && b@ =~= payload@);
+        assert(vv(Value::Array(arr))->Array_0 =~= want->Array_0);
+    }»
 
     let mut data = Vec::new();
     crate::vprelude::into_writer_vec(&Value::Array(arr), &mut data).unwrap(); // safe: always serializable
